@@ -12,6 +12,37 @@ WX_OK = [(15, 1, 0), (-10, 0, 0), (25, 8, 3), (0, 4, 1)]
 WX_BAD = [(26, 1, 0), (-11, 1, 0), (15, 9, 0), (15, 1, 4), (26, 9, 4), (15, 1, 9)]
 
 
+# dates put into the generators on purpose: day-of-year 366, year boundaries, leap day
+BOUNDARY_DATES = ["2020-12-31", "2024-12-31", "2021-12-31", "2021-01-01", "2025-01-01", "2024-02-28", "2024-02-29",
+                  "2024-03-01", "2023-02-28", "2023-03-01", "2024-12-30", "2022-07-15"]
+# method names: underscores, digits, prefixes of each other, marker / keyword-like
+METHOD_NAMES = ["OGI", "OGI_FU", "OGI_FU_2", "OGI_FU2", "A_1", "a", "kept", "NA", "Logs", "Daily", "site", "day",
+                "M 2", "_placeholder_str_x", "1"]
+
+
+def guarded(ctx, component, inp, fn):
+    """run the implementation side of one case; an exception of the real code or a value the adapter
+    cannot represent (non-integer minutes / costs, unexpected shape) is a correspondence disagreement
+    with the case as input -- never a crash of the check.  Returns fn() or None."""
+    try:
+        return fn()
+    except core_infra() as e:   # harness infrastructure problems stay infrastructure problems
+        raise e
+    except Exception as e:      # noqa: BLE001
+        import traceback
+
+        ctx.disagree(component, inp, "(model)", "implementation side raised %s: %s | %s" % (
+            type(e).__name__, str(e)[:200], traceback.format_exc().strip().splitlines()[-3][:160]))
+        ctx.count("impl-raised")
+        return None
+
+
+def core_infra():
+    from harness import core
+
+    return core.InfraError
+
+
 # ------------------------------------------------------------------------------------------------
 # survey step, exhaustive
 # ------------------------------------------------------------------------------------------------
@@ -47,10 +78,12 @@ def correspond_steps(ctx, tuples, cls="method"):
     model = LeanDriver("drv_crew").run(lines)
     out = []
     for t, ml in zip(tuples, model):
-        res = C.impl_step(*t[:6], cls=cls, today0=t[6])
-        il = C.impl_step_reply(res)
+        res = guarded(ctx, "crew.step/" + cls, {"step": list(t), "cls": cls}, lambda: C.impl_step(*t[:6], cls=cls, today0=t[6]))
+        if res is None:
+            continue
+        il = guarded(ctx, "crew.step/" + cls, {"step": list(t), "cls": cls}, lambda: C.impl_step_reply(res))
         ctx.evaluations += 1
-        if il != ml:
+        if il is not None and il != ml:
             ctx.disagree("crew.step/" + cls, {"step": list(t), "cls": cls}, ml, il)
             ctx.count("disagree")
         out.append((t, res))
@@ -104,10 +137,13 @@ def correspond_multiday(ctx, cases, cls="method"):
     out = []
     for c, ml in zip(cases, model):
         steps = []
-        res = C.impl_multiday(c[0], c[1], c[2], cls=cls, steps=steps)
-        il = C.impl_multiday_reply(res)
+        inp_ = {"multiday": [c[0], c[1], [list(d) for d in c[2]]], "cls": cls}
+        res = guarded(ctx, "crew.multiday/" + cls, inp_, lambda: C.impl_multiday(c[0], c[1], c[2], cls=cls, steps=steps))
+        if res is None:
+            continue
+        il = guarded(ctx, "crew.multiday/" + cls, inp_, lambda: C.impl_multiday_reply(res))
         ctx.evaluations += 1
-        if il != ml:
+        if il is not None and il != ml:
             ctx.disagree("crew.multiday/" + cls, {"multiday": [c[0], c[1], [list(d) for d in c[2]]], "cls": cls}, ml, il)
             ctx.count("disagree")
         out.append((c, res, steps))
@@ -151,7 +187,9 @@ def random_day(rng, size="small", cls=None, cost_types=("day", "site", "none")):
         nreq = rng.randint(3, 25)
     crews = 1 if stationary else rng.choice([0, 1, 1, 2, 2, 3, 5])
     reqs = []
-    for sid in range(nreq):
+    # site ids: unsorted, non-contiguous, and with natural order != lexicographic order of "s<id>"
+    sids = rng.sample(range(0, 60), nreq) if rng.random() < 0.7 else list(range(nreq))
+    for sid in sids:
         S = rng.choice([0, rng.randint(0, smax), rng.randint(0, max(smax // 4, 1))])
         T = rng.choice(tset)
         td = 0
@@ -176,7 +214,12 @@ def random_day(rng, size="small", cls=None, cost_types=("day", "site", "none")):
         T = min(T, budget // 2)
         reqs[0] = (sid, budget - 2 * T, 0, False, 0, T, scost, wx if consider_weather else WX_OK[0], 0)
     upfront = rng.choice([0, 0, 100, 2500])
-    return (cls, stationary, cost_type, unit_cost, budget, crews, consider_weather, reqs, upfront)
+    opts = {}
+    if rng.random() < 0.4:
+        opts["date"] = rng.choice(BOUNDARY_DATES)
+    if rng.random() < 0.4:
+        opts["name"] = rng.choice(METHOD_NAMES)
+    return (cls, stationary, cost_type, unit_cost, budget, crews, consider_weather, reqs, upfront, opts)
 
 
 def parse_day_reply(line):
@@ -205,10 +248,12 @@ def correspond_days(ctx, cases):
     model = LeanDriver("drv_crew").run(lines)
     out = []
     for c, ml in zip(cases, model):
-        r = C.impl_day(c)
-        il = C.impl_day_reply(c, r)
+        r = guarded(ctx, "crew.day/" + c[0], {"day": case_json(c)}, lambda: C.impl_day(c))
+        if r is None:
+            continue
         ctx.evaluations += 1
-        if il != ml:
+        il = guarded(ctx, "crew.day/" + c[0], {"day": case_json(c)}, lambda: C.impl_day_reply(c, r))
+        if il is not None and il != ml:
             ctx.disagree("crew.day/" + c[0], {"day": case_json(c)}, ml, il)
             ctx.count("disagree")
         out.append((c, r, il))
@@ -245,6 +290,9 @@ def random_campaign(rng):
                       rng.choice([0, 0, 20])))
     camp = {"cls": rng.choice(CLASSES), "budget": budget, "crews": rng.choice([1, 1, 2, 3]),
             "per_day_plan": rng.choice([1, 2, 3, 6]), "ndays": rng.randint(3, 12), "sites": sites, "weather": None}
+    if rng.random() < 0.5:
+        # campaigns that straddle New Year / the leap day / day-of-year 366
+        camp["start"] = rng.choice(["2024-12-27", "2020-12-29", "2021-12-30", "2024-02-26", "2023-02-26"])
     if rng.random() < 0.4:
         camp["weather"] = [[list(rng.choice(WX_OK) if rng.random() < 0.75 else rng.choice(WX_BAD)) for _ in range(n)]
                            for _ in range(rng.randint(2, 5))]
@@ -256,15 +304,19 @@ def correspond_campaigns(ctx, camps):
     returns list of (campaign, [(day case, DayResult)])"""
     from harness.adapters import crew as C
 
-    runs = [(camp, C.impl_campaign(camp)) for camp in camps]
+    runs = []
+    for camp in camps:
+        days = guarded(ctx, "crew.campaign/" + camp["cls"], {"campaign": camp}, lambda: C.impl_campaign(camp))
+        if days is not None:
+            runs.append((camp, days))
     lines = [C.day_line(case) for (_, days) in runs for (case, _) in days]
     model = LeanDriver("drv_crew").run(lines)
     k = 0
     for camp, days in runs:
         for d, (case, r) in enumerate(days):
-            il = C.impl_day_reply(case, r)
+            il = guarded(ctx, "crew.campaign/" + camp["cls"], {"campaign": camp, "day": d}, lambda: C.impl_day_reply(case, r))
             ctx.evaluations += 1
-            if il != model[k]:
+            if il is not None and il != model[k]:
                 ctx.disagree("crew.campaign/" + camp["cls"], {"campaign": camp, "day": d}, model[k], il)
                 ctx.count("disagree")
             k += 1
